@@ -2,6 +2,7 @@
 
 C18.a build lock discipline (XsdGlobals.build)    C18.b cache lock discipline (SchemaCache)
 C18.c lazy iteration lock pairing                  C18.d shared-state inventory is classified (with C10.a)
+C18.e processed-markers are published after the work they stand for
 """
 from __future__ import annotations
 
@@ -246,4 +247,39 @@ def rule_d(ctx: Ctx) -> None:
                 'operation / idempotent memo / not-yet-shared object.')
 
 
-RULES = [rule_a, rule_b, rule_c, rule_d]
+def rule_e(ctx: Ctx) -> None:
+    """Publish after initialise: where a set on shared state is used as a "processed" marker (`if k not in self.m: … self.m.add(k)`), the
+    mark is set after the work it stands for.  Marked first, a second thread finds the mark while the first is still working and goes on
+    with a half-initialised schema."""
+    rule = 'C18.e'
+    n = 0
+    for f in ctx.idx.iter_functions('validators'):
+        if isinstance(f.node, ast.Lambda) or f.cls is None:
+            continue
+        for t in walk_no_nested(f.node):
+            if not isinstance(t, ast.If):
+                continue
+            test = t.test
+            if not (isinstance(test, ast.Compare) and len(test.ops) == 1 and isinstance(test.ops[0], ast.NotIn)):
+                continue
+            cont, key = text(test.comparators[0]), text(test.left)
+            if not cont.startswith('self.'):
+                continue
+            marks = [(i, s_) for i, s_ in enumerate(t.body) if isinstance(s_, ast.Expr) and isinstance(s_.value, ast.Call)
+                     and text(s_.value.func) == f'{cont}.add' and len(s_.value.args) == 1 and text(s_.value.args[0]) == key]
+            if not marks:
+                continue
+            # only state that outlives the call matters: the container is an attribute of a schema component
+            n += 1
+            i, m = marks[0]
+            later = [s_ for s_ in t.body[i + 1:] if any(isinstance(x, ast.Call) for x in ast.walk(s_))]
+            ok = not later
+            ctx.ob(rule, f'{f.qualname.split(".", 2)[-1]}: `{text(m.value)}` marks `{key}` as processed after the work guarded by `{text(test)}`', f.loc(m), ok,
+                   '' if ok else f'the mark is set before `{text(later[0]).splitlines()[0][:60]}…` (line {later[0].lineno}): a thread that shares the schema finds the mark, skips the '
+                   'work and continues while it is still in progress - e.g. with xsi:type on an element under a unique/key constraint the children are validated before they '
+                   'are selected and duplicate values go unreported', key=f'{f.qualname}|publish-after-init|{cont}')
+    ctx.floor(rule, 'processed-marker sets on schema components', n, 1)
+    ctx.explain('C18.e: for every `if k not in self.<set>:` block that adds k to the same set, no statement containing a call follows the add inside the block.')
+
+
+RULES = [rule_a, rule_b, rule_c, rule_d, rule_e]
